@@ -144,11 +144,34 @@ func funcValueNonNil(v ssa.Value, in ssa.Instruction) bool {
 	return nonNilGuardedUp(in.Block(), v, 2)
 }
 
-func mapNonNil(m ssa.Value, in ssa.Instruction) bool {
+func mapNonNil(m ssa.Value, in ssa.Instruction) bool { return mapNonNilDepth(m, in, 2) }
+
+func mapNonNilDepth(m ssa.Value, in ssa.Instruction, depth int) bool {
 	r := facts.ResolveFree(m)
-	switch r.(type) {
+	switch x := r.(type) {
 	case *ssa.MakeMap:
 		return true
+	case *ssa.Parameter:
+		// a private helper: the map is non-nil if it is at every call site
+		h := x.Parent()
+		sites := privateCallSites(h)
+		if depth > 0 && len(sites) > 0 {
+			pi := -1
+			for i, q := range h.Params {
+				if q == x {
+					pi = i
+				}
+			}
+			all := pi >= 0
+			for _, s := range sites {
+				if !all || pi >= len(s.Common().Args) || !mapNonNilDepth(s.Common().Args[pi], s, depth-1) {
+					all = false
+				}
+			}
+			if all {
+				return true
+			}
+		}
 	}
 	// a field of a local struct variable whose only assignment in the function is
 	// a make(map...) that dominates the store
@@ -205,15 +228,20 @@ func panicInventory(c *core.Ctx, rule string, fns []*ssa.Function, extra Dischar
 				proven++
 				continue
 			}
+			why := s.Why
 			if extra != nil {
-				if ok, how := extra(fn, s); ok {
+				ok, how := extra(fn, s)
+				if ok {
 					proven++
 					c.OK(rule, name+"/"+s.Kind+"/"+s.Expr, s.In.Pos(), "discharged by guard obligation: "+how)
 					continue
 				}
+				if how != "" {
+					why += "; guard obligation: " + how
+				}
 			}
 			okAll = false
-			c.Fail(rule, name+"/"+s.Kind+"/"+s.Expr, s.In.Pos(), "unproven potential panic ("+s.Kind+" "+s.Expr+"): "+s.Why)
+			c.Fail(rule, name+"/"+s.Kind+"/"+s.Expr, s.In.Pos(), "unproven potential panic ("+s.Kind+" "+s.Expr+"): "+why)
 		}
 		if okAll && len(sites) > 0 {
 			c.OK(rule, name+"/panic-sites", fn.Pos(), sprintf("%d panic-capable constructs, all discharged", len(sites)))
